@@ -5,7 +5,7 @@ import U3.Model.Pool
 
 ```
 new <maxsize> <block> <proxy>
-req <rid> <retries ~|n> <preload> <release> <redirect> <methodRetryable> <isHead> [<fileBody><bodyPos><badTimeout>] <attempt>;<attempt>…
+req <rid> <retries ~|n> <preload> <release> <redirect> <methodRetryable> <isHead> [<fileBody><bodyPos><badTimeout>[<badPoolTimeout>]] <attempt>;<attempt>…
     attempt = connect,send,head,headLen,body,stray,after,seg[,sizes,trailers,hold[,pre,wait]]
     pre = ok | unrewind      wait = ok | invalid | intr
     head = none | garbage | <status>:<close>:<cl ~|n>:<location>:<retryAfter>[:<chunked>]
@@ -80,9 +80,11 @@ def how? (s : String) : Option How :=
   | ["stream", k] => k.toNat?.map .stream
   | _ => none
 
-def flags3? (s : String) : Option (Bool × Bool × Bool) :=
+def flags? (s : String) : Option (Bool × Bool × Bool × Bool) :=
   match s.toList with
-  | [a, b, c] => do pure (← bool? (String.ofList [a]), ← bool? (String.ofList [b]), ← bool? (String.ofList [c]))
+  | [a, b, c] => do pure (← bool? (String.ofList [a]), ← bool? (String.ofList [b]), ← bool? (String.ofList [c]), false)
+  | [a, b, c, d] => do
+    pure (← bool? (String.ofList [a]), ← bool? (String.ofList [b]), ← bool? (String.ofList [c]), ← bool? (String.ofList [d]))
   | _ => none
 
 def reqOp (rid ret pre rel red mret hd ext sc : String) : Option Op := do
@@ -94,8 +96,8 @@ def reqOp (rid ret pre rel red mret hd ext sc : String) : Option Op := do
   let red ← bool? red
   let mret ← bool? mret
   let hd ← bool? hd
-  let (fb, bp, bt) ← flags3? ext
-  let rc : ReqCfg := ReqCfg.mk pre rel red mret hd fb bp bt
+  let (fb, bp, bt, bpt) ← flags? ext
+  let rc : ReqCfg := ReqCfg.mk pre rel red mret hd fb bp bt bpt
   pure (.request (← rid.toNat?) rc retries (← script? sc))
 
 def parseOp : List String → Option Op
